@@ -1,6 +1,8 @@
 """family `walk` (C14): cif_walk over small CIFs built through the API x handler programs.
 
-request:  walk <cif tokens (harness/cifio.h)> prog <k>:<resp> ...
+request:  walk [lq<mask>] <cif tokens (harness/cifio.h)> prog <k>:<resp> ...
+          lq<mask>: queries through the LOOP handle inside the callbacks (bit 1: own packet iteration in loop_start / loop_end;
+          bit 2: category and names through the loop handle saved at loop_start, inside packet_start / item / packet_end)
 impl:     wk rc=<rc> n=<calls> log= <events> ord= <listing>          (harness/x_walk.c)
 model:    wk rc=<rc> n=<calls> log= <events>                         (run on the request + ` ord <listing>`)
 
@@ -17,7 +19,8 @@ HARNESS = {"source": "x_walk.c", "leak_clean": True}
 RULE = ("small CIFs (<= 3 blocks x <= 2 frames (+ nested) x <= 3 loops x <= 3 packets x <= 3 items, packet-less loops "
         "included) x every handler program deviating from CONTINUE at <= 1 invocation (quick) / <= 2 invocations "
         "(thorough) with responses {-1,-2,-3,7,1} and a spread of other return values (1, 2, 33, 36, 43, 104, 134, 100000, -4, -5) at "
-        "every position, plus random programs with 3..6 deviations; non-trivial = the "
+        "every position, plus random programs with 3..6 deviations; a share of the requests queries the loop handle inside the "
+        "callbacks (own packet iteration at loop_start / loop_end, names / category during the packet callbacks); non-trivial = the "
         "program deviates at an invocation that is actually reached; oracle (implementation only): C14 restated over "
         "the log, any sibling order accepted")
 
@@ -115,11 +118,13 @@ def parse_desc(toks):
 
 
 QUERIES = {}            # event index -> the answers of the container handle inside that callback (filled by parse_log)
+LOOPQ = {}              # event index -> the answers of the loop handle inside that callback (`i:` / `l:` token), when asked for
 
 
 def parse_log(toks):
     """event tokens -> list of (tag, ident)"""
     QUERIES.clear()
+    LOOPQ.clear()
     evs = []
     i = 0
     while i < len(toks):
@@ -138,6 +143,9 @@ def parse_log(toks):
             names = [norm_name(unhexs(x)) for x in toks[i + 3:i + 3 + n]]
             evs.append((t[1:], (toks[i + 1], tuple(sorted(names)))))
             i += 3 + n
+            if i < len(toks) and toks[i].startswith("i:"):
+                LOOPQ[len(evs) - 1] = toks[i]
+                i += 1
         elif t in ("@ps", "@pe"):
             m = int(toks[i + 1])
             i += 2
@@ -147,10 +155,16 @@ def parse_log(toks):
                 v, i = take_value(toks, i + 1)
                 items.append((nm, v))
             evs.append((t[1:], tuple(sorted(items))))
+            if i < len(toks) and toks[i].startswith("l:"):
+                LOOPQ[len(evs) - 1] = toks[i]
+                i += 1
         elif t == "@it":
             nm = norm_name(unhexs(toks[i + 1]))
             v, i = take_value(toks, i + 2)
             evs.append(("it", (nm, v)))
+            if i < len(toks) and toks[i].startswith("l:"):
+                LOOPQ[len(evs) - 1] = toks[i]
+                i += 1
         else:
             raise ValueError("bad log token %r" % t)
     return evs
@@ -168,8 +182,15 @@ def split_impl(impl):
     return int(t[1][3:]), int(t[2][2:]), rest[:k], rest[k + 1:]
 
 
+def req_mask(req):
+    t = req.split(" ")
+    return int(t[1][2:]) if len(t) > 1 and t[1].startswith("lq") else 0
+
+
 def split_req(req):
     t = req.split(" ")
+    if len(t) > 1 and t[1].startswith("lq"):
+        del t[1]
     k = t.index("prog")
     prog = {}
     for e in t[k + 1:]:
@@ -198,8 +219,9 @@ ENDT = {"c": "ce", "b": "be", "f": "fe", "l": "le", "p": "pe"}
 
 
 class Checker:
-    def __init__(self, evs, prog):
-        self.evs, self.prog, self.k = evs, prog, 0
+    def __init__(self, evs, prog, mask=0):
+        self.evs, self.prog, self.k, self.mask = evs, prog, 0, mask
+        self.loop = None        # the loop whose packets are being walked
 
     def peek(self):
         return self.evs[self.k] if self.k < len(self.evs) else None
@@ -269,9 +291,40 @@ class Checker:
         elif loops or il != "-":
             raise Bad("invocation %d: item look-up %r does not fit the loops of %s %s" % (k, il, what, nd.ident))
 
+    def check_loop_handle(self, nd, k):
+        """queries through the LOOP handle (request flag lq): bit 1 - in loop_start / loop_end the handler makes its own pass over
+        the packets through the handle (open, count, close): must succeed with the loop's packets (CIF_EMPTY_LOOP for a packet-less
+        loop); bit 2 - in packet_start / item / packet_end the loop handle saved at loop_start is asked for category and names
+        while the walker's iterator is open: must answer with those of the loop being walked"""
+        q = LOOPQ.get(k)
+        if nd.kind == "l":
+            if not (self.mask & 1):
+                return
+            npk = len(nd.groups[0])
+            want = "i:0:%d:1:0" % npk if npk else "i:36:0:0:-1"
+            if q != want:
+                raise Bad("invocation %d: own packet iteration through the loop handle of %r answers %r, expected %r"
+                          % (k, nd.ident, q, want))
+        else:
+            if not (self.mask & 2):
+                return
+            if q is None or self.loop is None:
+                raise Bad("invocation %d: no answers of the loop handle logged" % k)
+            f = q.split(":")
+            if len(f) != 4:
+                raise Bad("invocation %d: the loop handle saved at loop_start answers %r" % (k, q))
+            names = tuple(sorted(norm_name(unhexs(x)) for x in f[3].split(",") if x))
+            if (f[1], names) != self.loop.ident or int(f[2]) != len(names):
+                raise Bad("invocation %d: the loop handle saved at loop_start answers %r, the loop being walked is %r"
+                          % (k, q, self.loop.ident))
+
     def visit(self, nd):
         if nd.kind in ("b", "f"):
             self.check_handle(nd, self.k)
+        if nd.kind == "l":
+            self.loop = nd
+        if nd.kind in ("l", "p", "it"):
+            self.check_loop_handle(nd, self.k)
         r = self.take()
         if nd.kind == "it":
             return "sib" if r == SKIP_SIB else "go"
@@ -288,6 +341,8 @@ class Checker:
         if self.peek() == endev:
             if nd.kind in ("b", "f"):
                 self.check_handle(nd, self.k)
+            if nd.kind in ("l", "p"):
+                self.check_loop_handle(nd, self.k)
             r2 = self.take()
             if r2 == SKIP_SIB:
                 sib = True
@@ -313,7 +368,7 @@ def oracle(req, impl):
         return "unreadable request/log: %r" % (e,)
     if n != len(evs):
         return "callback count %d differs from the number of logged events %d" % (n, len(evs))
-    ck = Checker(evs, prog)
+    ck = Checker(evs, prog, req_mask(req))
     expect_rc = 0
     try:
         if ck.peek() != ("cs", None):
@@ -376,11 +431,13 @@ def finding_class(req, impl, model, why):
 
 def shrink(req):
     toks, prog = split_req(req)
+    m = req_mask(req)
+    pre = "walk " + ("lq%d " % m if m else "")
     items = sorted(prog.items())
     # drop one program entry
     for i in range(len(items)):
         rest = items[:i] + items[i + 1:]
-        yield "walk " + " ".join(toks) + " prog" + "".join(" %d:%d" % e for e in rest)
+        yield pre + " ".join(toks) + " prog" + "".join(" %d:%d" % e for e in rest)
 
 
 # ------------------------------------------------------------------------------------------------ generator
@@ -468,6 +525,14 @@ def generate(seed, tier):
         n = ncallbacks(toks)
         base = "walk " + " ".join(toks) + " prog"
         yield base
+        # queries through the loop handle inside the callbacks (own packet iteration in loop_start / loop_end; category and names
+        # through the saved loop handle in packet / item callbacks): all continue, then every single deviation on the first CIFs
+        for m in (1, 2, 3):
+            yield "walk lq%d " % m + " ".join(toks) + " prog"
+        if ci < (3 if quick else 12):
+            for k in range(n):
+                for resp in (-1, -2, -3, 7):
+                    yield "walk lq3 " + " ".join(toks) + " prog %d:%d" % (k, resp)
         for k in range(n):
             for resp in RESPS:
                 yield base + " %d:%d" % (k, resp)
@@ -496,4 +561,5 @@ def generate(seed, tier):
         prog = {}
         for _ in range(r.randint(3, 6)):
             prog[r.randrange(n)] = r.choice([-1, -1, -2, -2, -3, 7] + CODES)
-        yield "walk " + " ".join(toks) + " prog" + "".join(" %d:%d" % e for e in sorted(prog.items()))
+        m = r.choice([0, 0, 1, 2, 3, 3])
+        yield "walk " + ("lq%d " % m if m else "") + " ".join(toks) + " prog" + "".join(" %d:%d" % e for e in sorted(prog.items()))
